@@ -13,7 +13,7 @@ import (
 
 func init() {
 	props["C19"] = &propDef{
-		rule: "cases = histories: CreateEmptyInit, then 1..6 AddEmptyTrack(timescale, media in {video,audio,subtitle,stpp,text,wvtt,meta,clcp} (the media types CreateHdlr accepts), language in {3-letter codes, 2-letter codes, BCP-47 tags with sub-tags}) interleaved with Set{AVC(avc1/avc3, PS in/out),HEVC(hvc1/hev1),AAC(LC/HE/HEv2 x frequencies),AC3,EC3,Wvtt,Stpp}Descriptor on any existing track (incl. tracks not yet last); parameter sets from an independent minimal SPS/PPS/VPS writer with random dimensions, cropping, ids, profiles; checks: ids 1..n, trex per track, next id, handler/media header/language per media type, sample entry contents = supplied, Size = encoded length, decode (both paths) -> equal Info dump and identical re-encoding, IsFragmented, single- and multi-track fragments for the track ids read back through the decoded init's trex; correspondence: the model predicts the whole encoded init (every byte) and the bookkeeping state; non-trivial = distinct history with >= 2 tracks",
+		rule: "cases = histories: CreateEmptyInit, then 1..6 AddEmptyTrack(timescale, media in {video,audio,subtitle,stpp,text,wvtt,meta,clcp} (the media types CreateHdlr accepts), language in {3-letter codes, 2-letter codes, BCP-47 tags with sub-tags}) interleaved with Set{AVC(avc1/avc3, PS in/out),HEVC(hvc1/hev1),AAC(LC/HE/HEv2 x frequencies),AC3,EC3,Wvtt,Stpp}Descriptor on any existing track (incl. tracks not yet last); parameter sets from an independent minimal SPS/PPS/VPS writer with random dimensions, cropping, ids, profiles, HEVC profile_tier_level (profile space, Main/High tier, compatibility and constraint flags, levels 1..6.2); EC-3 configurations with 1..8 independent substreams, 0..8 dependent substreams each and channel locations; checks: ids 1..n, trex per track, next id, handler/media header/language per media type, sample entry contents = supplied (hvcC: every general profile_tier_level field = SPS; dec3: every substream), Size = encoded length, decode (both paths) -> equal Info dump and identical re-encoding, IsFragmented, single- and multi-track fragments for the track ids read back through the decoded init's trex; correspondence: the model predicts the whole encoded init (every byte) and the bookkeeping state; non-trivial = distinct history with >= 2 tracks",
 		gen:  genC19,
 		exec: execC19,
 	}
@@ -91,6 +91,11 @@ type psSet struct {
 	profile, compat    byte
 	level              byte
 	chroma, bdl, bdc   int
+	// HEVC profile_tier_level (general part), as written into VPS and SPS
+	space      byte
+	tier       bool
+	compat32   uint32
+	constraint uint64 // 48 bits: progressive, interlaced, non-packed, frame-only, 43 profile-dependent bits, inbld/reserved
 }
 
 func genAVCPS19(r *rand.Rand) *psSet {
@@ -203,26 +208,47 @@ func genAVCPS19(r *rand.Rand) *psSet {
 	return ps
 }
 
-func hevcPTL19(w *bw19, r *rand.Rand, ps *psSet) {
-	w.u(2, 0)
-	w.u(1, uint64(r.Intn(2)))
+// profile_tier_level(1, 0): general part only (ISO/IEC 23008-2 7.3.3)
+func hevcPTL19(w *bw19, ps *psSet) {
+	w.u(2, uint64(ps.space))
+	w.flag(ps.tier)
 	w.u(5, uint64(ps.profile))
-	w.u(32, uint64(r.Uint32()))
-	w.u(1, 1)
-	w.u(1, 0)
-	w.u(1, 0)
-	w.u(1, 1)
-	w.u(32, 0)
-	w.u(11, 0)
-	w.u(1, 0)
+	w.u(32, uint64(ps.compat32))
+	w.u(48, ps.constraint)
 	w.u(8, uint64(ps.level))
+}
+
+// genHEVCPTL19 draws the general profile_tier_level fields: Main / Main10 / RExt profile, any level of Table A.8, High tier
+// only from level 4 up (A.4.1), compatibility flags with the bit of the profile set plus random further ones, the four
+// source/constraint flags free, the 43 profile-dependent bits zero, a few RExt constraint flags, or arbitrary.
+func genHEVCPTL19(r *rand.Rand, ps *psSet) {
+	ps.profile = []byte{1, 2, 4}[r.Intn(3)]
+	ps.level = []byte{30, 60, 63, 90, 93, 120, 123, 150, 153, 156, 180, 183, 186}[r.Intn(13)]
+	if r.Intn(16) == 0 {
+		ps.space = byte(1 + r.Intn(3))
+	}
+	if ps.level >= 120 {
+		ps.tier = r.Intn(2) == 0
+	}
+	ps.compat32 = 1 << (31 - uint(ps.profile))
+	switch r.Intn(3) {
+	case 0:
+		ps.compat32 |= r.Uint32()
+	case 1:
+		ps.compat32 |= 1 << (31 - uint(r.Intn(8)))
+	}
+	ps.constraint = uint64(r.Intn(16)) << 44
+	switch r.Intn(4) {
+	case 0:
+		ps.constraint |= uint64(r.Intn(512)) << 35 // max_12bit .. lower_bit_rate constraint flags
+	case 1:
+		ps.constraint |= uint64(r.Int63()) & (1<<44 - 1)
+	}
 }
 
 func genHEVCPS19(r *rand.Rand) *psSet {
 	ps := &psSet{codec: "hevc", chroma: 1}
-	ps.profile = []byte{1, 2, 4}[r.Intn(3)]
-	ps.level = []byte{60, 90, 93, 120, 123, 150, 153}[r.Intn(7)]
-	seedPTL := r.Int63()
+	genHEVCPTL19(r, ps)
 	vpsID := uint64(r.Intn(16))
 	v := &bw19{}
 	v.u(4, vpsID)
@@ -232,7 +258,7 @@ func genHEVCPS19(r *rand.Rand) *psSet {
 	v.u(3, 0)
 	v.u(1, 1)
 	v.u(16, 0xffff)
-	hevcPTL19(v, rand.New(rand.NewSource(seedPTL)), ps)
+	hevcPTL19(v, ps)
 	v.flag(true)
 	v.ue(4)
 	v.ue(2)
@@ -248,7 +274,7 @@ func genHEVCPS19(r *rand.Rand) *psSet {
 	s.u(4, vpsID)
 	s.u(3, 0)
 	s.u(1, 1)
-	hevcPTL19(s, rand.New(rand.NewSource(seedPTL)), ps)
+	hevcPTL19(s, ps)
 	s.ue(spsID)
 	ps.chroma = []int{1, 1, 1, 0, 2, 3}[r.Intn(6)]
 	s.ue(uint64(ps.chroma))
@@ -466,13 +492,7 @@ func buildInit(p *initPlan) (*mp4.InitSegment, []*expTrack, error) {
 			return trak.SetAC3Descriptor(&cp)
 		case "ec3":
 			e.entryType = "ec-3"
-			e.dec3 = &mp4.Dec3Box{DataRate: uint16(r.Intn(8192)), NumIndSub: 0}
-			sub := mp4.EC3Sub{FSCod: byte(r.Intn(3)), BSID: byte(r.Intn(32)), ASVC: byte(r.Intn(2)), BSMod: byte(r.Intn(8)), ACMod: byte(r.Intn(8)), LFEOn: byte(r.Intn(2))}
-			if r.Intn(2) == 0 {
-				sub.NumDepSub = 1
-				sub.ChanLoc = uint16(r.Intn(512))
-			}
-			e.dec3.EC3Subs = []mp4.EC3Sub{sub}
+			e.dec3 = genDec319(r)
 			cp := *e.dec3
 			cp.EC3Subs = append([]mp4.EC3Sub{}, e.dec3.EC3Subs...)
 			return trak.SetEC3Descriptor(&cp)
@@ -516,6 +536,55 @@ func buildInit(p *initPlan) (*mp4.InitSegment, []*expTrack, error) {
 		}
 	}
 	return init, exp, nil
+}
+
+// genDec319 draws an EC3SpecificBox content (ETSI TS 102 366 F.6): 1..8 independent substreams, each with 0..8 dependent
+// substreams and, when it has any, a 9-bit channel location mask. The box is a literal built in code: the NumIndSub field
+// (redundant with len(EC3Subs)) is either left at its zero value or set to the number of independent substreams minus one.
+func genDec319(r *rand.Rand) *mp4.Dec3Box {
+	d := &mp4.Dec3Box{DataRate: uint16(r.Intn(8192))}
+	n := 1
+	if r.Intn(2) == 0 {
+		n = 2 + r.Intn(7)
+	}
+	for i := 0; i < n; i++ {
+		sub := mp4.EC3Sub{FSCod: byte(r.Intn(3)), BSID: byte(r.Intn(32)), ASVC: byte(r.Intn(2)), BSMod: byte(r.Intn(8)), ACMod: byte(r.Intn(8)), LFEOn: byte(r.Intn(2))}
+		if r.Intn(2) == 0 {
+			sub.NumDepSub = byte(1 + r.Intn(8))
+			sub.ChanLoc = uint16(r.Intn(512))
+			if r.Intn(4) == 0 {
+				sub.ChanLoc = []uint16{0, 1, 256, 511}[r.Intn(4)]
+			}
+		}
+		d.EC3Subs = append(d.EC3Subs, sub)
+	}
+	if r.Intn(2) == 0 {
+		d.NumIndSub = uint16(n - 1)
+	}
+	return d
+}
+
+// dec3Diff compares the configuration carried by a dec3 box with the supplied one: data rate, every independent substream
+// (incl. number of dependent substreams and channel locations) in order, and nothing else in the box.
+func dec3Diff(got, want *mp4.Dec3Box) string {
+	if got == nil {
+		return "no dec3"
+	}
+	if got.DataRate != want.DataRate {
+		return fmt.Sprintf("data rate %d, supplied %d", got.DataRate, want.DataRate)
+	}
+	if len(got.EC3Subs) != len(want.EC3Subs) {
+		return fmt.Sprintf("%d independent substreams (%d trailing reserved bytes), supplied %d", len(got.EC3Subs), len(got.Reserved), len(want.EC3Subs))
+	}
+	for i := range want.EC3Subs {
+		if got.EC3Subs[i] != want.EC3Subs[i] {
+			return fmt.Sprintf("substream %d of %d: %+v, supplied %+v", i+1, len(want.EC3Subs), got.EC3Subs[i], want.EC3Subs[i])
+		}
+	}
+	if len(got.Reserved) != 0 {
+		return fmt.Sprintf("%d trailing reserved bytes, none supplied", len(got.Reserved))
+	}
+	return ""
 }
 
 func nalusEq(a, b [][]byte) bool {
@@ -647,6 +716,10 @@ func checkInitTree(init *mp4.InitSegment, p *initPlan, exp []*expTrack) (string,
 			if h.GeneralProfileIDC != e.ps.profile || h.GeneralLevelIDC != e.ps.level || int(h.ChromaFormatIDC) != e.ps.chroma || int(h.BitDepthLumaMinus8) != e.ps.bdl || int(h.BitDepthChromaMinus8) != e.ps.bdc {
 				return "C19-config", fmt.Sprintf("track %d hvcC profile %d level %d chroma %d depths %d/%d, SPS %d %d %d %d/%d", i+1, h.GeneralProfileIDC, h.GeneralLevelIDC, h.ChromaFormatIDC, h.BitDepthLumaMinus8, h.BitDepthChromaMinus8, e.ps.profile, e.ps.level, e.ps.chroma, e.ps.bdl, e.ps.bdc)
 			}
+			// every general profile_tier_level field of the record equals that of the supplied SPS (ISO/IEC 14496-15 8.3.3.1.3)
+			if h.GeneralProfileSpace != e.ps.space || h.GeneralTierFlag != e.ps.tier || h.GeneralProfileCompatibilityFlags != e.ps.compat32 || h.GeneralConstraintIndicatorFlags != e.ps.constraint {
+				return "C19-config", fmt.Sprintf("track %d hvcC profile space %d tier %v compatibility %08x constraints %012x, SPS %d %v %08x %012x", i+1, h.GeneralProfileSpace, h.GeneralTierFlag, h.GeneralProfileCompatibilityFlags, h.GeneralConstraintIndicatorFlags, e.ps.space, e.ps.tier, e.ps.compat32, e.ps.constraint)
+			}
 			if e.includePS {
 				if !nalusEq(h.GetNalusForType(32), e.ps.vps) || !nalusEq(h.GetNalusForType(33), e.ps.sps) || !nalusEq(h.GetNalusForType(34), e.ps.pps) {
 					return "C19-ps", fmt.Sprintf("track %d hvcC parameter sets differ from those supplied", i+1)
@@ -677,8 +750,11 @@ func checkInitTree(init *mp4.InitSegment, p *initPlan, exp []*expTrack) (string,
 			}
 		case "ec-3":
 			m := stsd.EC3
-			if m == nil || m.Dec3 == nil || m.Dec3.DataRate != e.dec3.DataRate || len(m.Dec3.EC3Subs) != 1 || m.Dec3.EC3Subs[0] != e.dec3.EC3Subs[0] {
-				return "C19-config", fmt.Sprintf("track %d dec3 differs: %+v vs %+v", i+1, m.Dec3, e.dec3)
+			if m == nil {
+				return "C19-entry", "no ec-3 entry"
+			}
+			if d := dec3Diff(m.Dec3, e.dec3); d != "" {
+				return "C19-config", fmt.Sprintf("track %d dec3: %s", i+1, d)
 			}
 		case "wvtt":
 			want := e.vtt
@@ -963,6 +1039,19 @@ func genC19(c *Ctx) {
 				d = "none"
 			}
 			c.Count("desc=" + d)
+			switch d {
+			case "ec3":
+				if x := genDec319(rand.New(rand.NewSource(t.seed))); len(x.EC3Subs) > 1 {
+					c.Count("ec3: >= 2 independent substreams")
+					if x.NumIndSub == 0 {
+						c.Count("ec3: >= 2 independent substreams, NumIndSub field left zero")
+					}
+				}
+			case "hvc1", "hev1", "hev1nops":
+				if x := genHEVCPS19(rand.New(rand.NewSource(t.seed))); x.tier {
+					c.Count("hevc: High tier")
+				}
+			}
 			c.Count("media=" + t.media)
 			if len(t.lang) == 3 {
 				c.Count("lang=3-letter")
